@@ -66,6 +66,23 @@ pub fn subjects() -> Vec<Subject> {
         repo.prune(&o, plan).expect("prune");
         out.push(Subject { name: "pruned-with-marked-packs", store: env.store(), model });
     }
+    // (2b) after forget without prune (and after a prune which tolerates unused blobs): packs which
+    // hold needed and no longer needed blobs side by side
+    {
+        let env = Env::single();
+        _ = env.init_with(cfg(2, 600, 500)).expect("init");
+        let mut model = BTreeMap::new();
+        bk(&env, 0, "s0", &mut model);
+        bk(&env, 1, "s1", &mut model);
+        let repo = env.open().expect("open");
+        let ids: Vec<_> = repo.get_all_snapshots().unwrap().iter().filter(|s| s.label == "s0").map(|s| s.id).collect();
+        repo.delete_snapshots(&ids).expect("forget");
+        _ = model.remove("s0");
+        let o = PruneOptions::default().max_unused(LimitOption::Unlimited).max_repack(LimitOption::Unlimited);
+        let plan = repo.prune_plan(&o).expect("plan");
+        repo.prune(&o, plan).expect("prune");
+        out.push(Subject { name: "partly-used-packs", store: env.store(), model });
+    }
     // (3) duplicate blobs: the same source backed up again through a stale handle
     {
         let env = Env::single();
@@ -205,7 +222,7 @@ pub fn run(args: &Args, rep: &mut Report) {
     let other = RawKey::from_master(&other_master_key());
     std::panic::set_hook(Box::new(|_| {}));
     let subs = subjects();
-    rep.set_meta("rule", json!("5 repositories produced by real histories (fresh; after forget+prune with marked packs; duplicate blobs via a stale handle; one-blob packs; repo version 1) x every stored file except config x {remove; truncate; flip; append 1/16/32 bytes; replace by each sibling of the same type; same plaintext under another key; index: duplicate / drop a pack entry, drop a blob entry}. quick: one bit per ciphertext byte and all 8 bits of nonces, MACs, pack headers, trailers; boundary truncation lengths. thorough: every bit and every truncation length of files <= 2 KiB. Non-trivial = distinct faults whose verdict is 'detected by check' (the fault is visible) - harmless ones are counted separately"));
+    rep.set_meta("rule", json!("6 repositories produced by real histories (fresh; after forget+prune with marked packs; after forget and a prune which keeps partly used packs; duplicate blobs via a stale handle; one-blob packs; repo version 1) x every stored file except config x {remove; truncate; flip; append 1/16/32 bytes; replace by each sibling of the same type; same plaintext under another key; index: duplicate / drop a pack entry, drop a blob entry}. quick: one bit per ciphertext byte and all 8 bits of nonces, MACs, pack headers, trailers; boundary truncation lengths. thorough: every bit and every truncation length of files <= 2 KiB. Non-trivial = distinct faults whose verdict is 'detected by check' (the fault is visible) - harmless ones are counted separately"));
     // the unfaulted subjects: check clean and everything restorable
     if args.shard == 0 && args.replay.is_none() {
         for s in &subs {
